@@ -176,13 +176,17 @@ func (r *RandomChoiceSelection) Select(pool UpstreamPool, _ *layer4.Connection) 
 	if k > len(pool) {
 		k = len(pool)
 	}
-	choices := make([]*Upstream, k)
-	for i, upstream := range pool {
+	// reservoir sampling over the available upstreams only
+	choices := make([]*Upstream, 0, k)
+	var seen int
+	for _, upstream := range pool {
 		if !upstream.available() {
 			continue
 		}
-		j := weakrand.Intn(i + 1)
-		if j < k {
+		seen++
+		if len(choices) < k {
+			choices = append(choices, upstream)
+		} else if j := weakrand.Intn(seen); j < k {
 			choices[j] = upstream
 		}
 	}
@@ -301,8 +305,8 @@ func (r *RoundRobinSelection) Select(pool UpstreamPool, _ *layer4.Connection) *U
 		return nil
 	}
 	for i := uint32(0); i < n; i++ {
-		atomic.AddUint32(&r.robin, 1)
-		host := pool[r.robin%n]
+		robin := atomic.AddUint32(&r.robin, 1)
+		host := pool[robin%n]
 		if host.available() {
 			return host
 		}
@@ -421,14 +425,20 @@ func leastConns(upstreams []*Upstream) *Upstream {
 		return nil
 	}
 	var best []*Upstream
-	var bestReqs int
+	bestReqs := -1
 	for _, upstream := range upstreams {
+		if upstream == nil {
+			continue
+		}
 		reqs := upstream.totalConns()
 		if reqs == 0 {
 			return upstream
 		}
-		if reqs <= bestReqs {
+		if bestReqs == -1 || reqs < bestReqs {
 			bestReqs = reqs
+			best = best[:0]
+		}
+		if reqs == bestReqs {
 			best = append(best, upstream)
 		}
 	}
@@ -449,7 +459,7 @@ func hostByHashing(pool []*Upstream, s string) *Upstream {
 			continue
 		}
 		h := hash(up.String() + s) // important to hash key and server together
-		if h > highestHash {
+		if upstream == nil || h > highestHash {
 			highestHash = h
 			upstream = up
 		}
